@@ -466,6 +466,216 @@ def methodize(fn: ast.FunctionDef, spec: dict) -> tuple[ast.FunctionDef, dict]:
     return fn2, spec2
 
 
+# ----------------------------------------------------------------------------- float-stack methods
+FLOAT_OPS_PREAMBLE = """(* Operations of the number domain the formula steps compute on (kind "stack_method"):
+   the translated `apply` bodies are generic in it; proofs instantiate it with the model's values.
+   f_div is partial: None = ZeroDivisionError.  Python's builtins on two arguments are spelled out:
+   max(a, b) = b if a < b else a;  min(a, b) = b if b < a else a. *)
+Record float_ops (V : Type) : Type := mk_float_ops {
+  f_add : V -> V -> V;  f_sub : V -> V -> V;  f_mul : V -> V -> V;
+  f_div : V -> V -> option V;
+  f_neg : V -> V;
+  f_lt : V -> V -> bool;  f_eq : V -> V -> bool;
+  f_isnan : V -> bool;  f_isinf : V -> bool;
+  f_nan : V;
+  f_of_int : Z -> V
+}.
+Arguments f_add {V}. Arguments f_sub {V}. Arguments f_mul {V}. Arguments f_div {V}. Arguments f_neg {V}.
+Arguments f_lt {V}. Arguments f_eq {V}. Arguments f_isnan {V}. Arguments f_isinf {V}. Arguments f_nan {V}.
+Arguments f_of_int {V}.
+"""
+
+
+class StackTr:
+    """kind "stack_method": a method `apply(self, <stack>: list[float]) -> None` of a formula step,
+    as a function `float_ops V -> <fields> -> list V -> option (list V)` (None = an exception: pop
+    from an empty list, division by zero).  Supported statements: `x = <stack>.pop()`,
+    `<stack>.append(e)`, `x = e`, `if c: ... [else: ...]`, docstrings; expressions: names, int
+    literals, `math.nan`, unary minus, + - * /, `max(a, b)`, `min(a, b)`, `math.isnan(x)`,
+    `math.isinf(x)`, single comparisons, and/or/not, `a if c else b`, `self.<field>` for declared
+    fields (spec.fields = {name: "V" | "optV"}) with `self.<f> is [not] None` tests on optV fields."""
+
+    def __init__(self, fn: ast.FunctionDef, spec: dict):
+        self.fn = fn
+        self.fields = dict(spec.get("fields", {}))
+        args = [a.arg for a in fn.args.args if a.arg != "self"]
+        if len(args) != 1 or fn.args.vararg or fn.args.kwarg or fn.args.kwonlyargs:
+            fail(fn, "a stack method takes exactly the evaluation stack")
+        self.stack = args[0]
+        if self.stack.startswith("_") or self.stack in self.fields:
+            fail(fn, "unsuitable stack parameter name")
+        self.n = 0
+
+    def translate(self, coqname: str) -> str:
+        env = {f: ("opt" if t == "optV" else "V") for f, t in self.fields.items()}
+        for f, t in self.fields.items():
+            if t not in ("V", "optV"):
+                raise Unsupported(f"field type {t}")
+        body = self.block(list(self.fn.body), env, 1)
+        params = "".join(f" ({f} : {'option V' if t == 'optV' else 'V'})" for f, t in self.fields.items())
+        return (f"Definition {coqname} {{V : Type}} (ops : float_ops V){params} ({self.stack} : list V)"
+                f" : option (list V) :=\n{body}.")
+
+    def fresh(self):
+        self.n += 1
+        return f"tmp{self.n}__"
+
+    def block(self, stmts, env, ind) -> str:
+        pad = "  " * ind
+        if not stmts:
+            return f"{pad}Some {self.stack}"
+        s, rest = stmts[0], stmts[1:]
+        if isinstance(s, ast.Expr) and isinstance(s.value, ast.Constant) and isinstance(s.value.value, str):
+            return self.block(rest, env, ind)
+        if isinstance(s, ast.Return) and s.value is None:
+            return f"{pad}Some {self.stack}"
+        if isinstance(s, ast.Assign) and len(s.targets) == 1 and isinstance(s.targets[0], ast.Name):
+            x = s.targets[0].id
+            if x == self.stack or x in self.fields or x in ("ops", "V", "Some", "None"):
+                fail(s, f"assignment to {x}")
+            if self.is_stack_call(s.value, "pop"):
+                if s.value.args or s.value.keywords:
+                    fail(s, "pop with arguments")
+                env2 = dict(env)
+                env2[x] = "V"
+                return (f"{pad}match {self.stack} with\n{pad}| [] => None\n{pad}| {x} :: {self.stack} =>\n"
+                        + self.block(rest, env2, ind + 1) + f"\n{pad}end")
+            v, t, partial = self.expr(s.value, env)
+            if t != "V":
+                fail(s, "only numbers can be assigned")
+            env2 = dict(env)
+            env2[x] = "V"
+            if partial:
+                return (f"{pad}match {v} with\n{pad}| None => None\n{pad}| Some {x} =>\n"
+                        + self.block(rest, env2, ind + 1) + f"\n{pad}end")
+            return f"{pad}let {x} := {v} in\n" + self.block(rest, env2, ind)
+        if isinstance(s, ast.Expr) and self.is_stack_call(s.value, "append"):
+            if len(s.value.args) != 1 or s.value.keywords:
+                fail(s, "append takes one argument")
+            v, t, partial = self.expr(s.value.args[0], env)
+            if t != "V":
+                fail(s, "only numbers can be pushed")
+            if partial:
+                x = self.fresh()
+                return (f"{pad}match {v} with\n{pad}| None => None\n{pad}| Some {x} =>\n{pad}  let {self.stack} := {x} :: {self.stack} in\n"
+                        + self.block(rest, env, ind + 1) + f"\n{pad}end")
+            return f"{pad}let {self.stack} := {v} :: {self.stack} in\n" + self.block(rest, env, ind)
+        if isinstance(s, ast.If):
+            nt = self.none_test(s.test, env)
+            if nt is not None:
+                f, is_none = nt
+                env_s = dict(env)
+                env_s[f] = "V"
+                some_b, none_b = (s.orelse, s.body) if is_none else (s.body, s.orelse)
+                return (f"{pad}match {f} with\n{pad}| None =>\n" + self.block(list(none_b) + rest, env, ind + 1)
+                        + f"\n{pad}| Some {f} =>\n" + self.block(list(some_b) + rest, env_s, ind + 1) + f"\n{pad}end")
+            c, t, partial = self.expr(s.test, env)
+            if t != "bool" or partial:
+                fail(s, "condition must be a total boolean expression")
+            return (f"{pad}if {c} then\n" + self.block(list(s.body) + rest, env, ind + 1)
+                    + f"\n{pad}else\n" + self.block(list(s.orelse) + rest, env, ind + 1))
+        fail(s, f"unsupported statement {type(s).__name__} in a stack method")
+
+    def is_stack_call(self, e, meth):
+        return (isinstance(e, ast.Call) and isinstance(e.func, ast.Attribute) and e.func.attr == meth
+                and isinstance(e.func.value, ast.Name) and e.func.value.id == self.stack)
+
+    def field_of(self, e):
+        if isinstance(e, ast.Attribute) and isinstance(e.value, ast.Name) and e.value.id == "self":
+            if e.attr not in self.fields:
+                fail(e, f"self.{e.attr} is not a declared field")
+            return e.attr
+        return None
+
+    def none_test(self, c, env):
+        if isinstance(c, ast.Compare) and len(c.ops) == 1 and isinstance(c.ops[0], (ast.Is, ast.IsNot)) \
+                and isinstance(c.comparators[0], ast.Constant) and c.comparators[0].value is None:
+            f = self.field_of(c.left)
+            if f is None or env.get(f) != "opt":
+                fail(c, "`is None` is only supported on an optional field that has not been tested yet")
+            return f, isinstance(c.ops[0], ast.Is)
+        return None
+
+    def total(self, e, env, want):
+        v, t, partial = self.expr(e, env)
+        if partial:
+            fail(e, "a possibly raising sub-expression is only supported at the top of an assignment, append or conditional expression")
+        if t != want:
+            fail(e, f"{t} where {want} expected")
+        return v
+
+    def expr(self, e, env):
+        """-> (coq term, "V" | "bool", partial: the term has type option V)"""
+        if isinstance(e, ast.Name):
+            if env.get(e.id) != "V":
+                fail(e, f"unknown or non-numeric name {e.id}")
+            return e.id, "V", False
+        f = self.field_of(e)
+        if f is not None:
+            if env.get(f) != "V":
+                fail(e, f"self.{f} may be None here")
+            return f, "V", False
+        if isinstance(e, ast.Attribute) and isinstance(e.value, ast.Name) and e.value.id == "math" and e.attr == "nan":
+            return "(f_nan ops)", "V", False
+        if isinstance(e, ast.Constant):
+            if isinstance(e.value, bool):
+                return str(e.value).lower(), "bool", False
+            if isinstance(e.value, int):
+                return f"(f_of_int ops ({e.value}))", "V", False
+            if isinstance(e.value, float) and e.value == int(e.value):
+                return f"(f_of_int ops ({int(e.value)}))", "V", False
+            fail(e, f"constant {e.value!r}")
+        if isinstance(e, ast.UnaryOp):
+            if isinstance(e.op, ast.USub):
+                return f"(f_neg ops {self.total(e.operand, env, 'V')})", "V", False
+            if isinstance(e.op, ast.Not):
+                return f"(negb {self.total(e.operand, env, 'bool')})", "bool", False
+            fail(e, "unary operator")
+        if isinstance(e, ast.BinOp):
+            a, b = self.total(e.left, env, "V"), self.total(e.right, env, "V")
+            ops = {ast.Add: "f_add", ast.Sub: "f_sub", ast.Mult: "f_mul"}
+            if type(e.op) in ops:
+                return f"({ops[type(e.op)]} ops {a} {b})", "V", False
+            if isinstance(e.op, ast.Div):
+                return f"(f_div ops {a} {b})", "V", True
+            fail(e, f"binary operator {type(e.op).__name__}")
+        if isinstance(e, ast.BoolOp):
+            op = "&&" if isinstance(e.op, ast.And) else "||"
+            return "(" + f" {op} ".join(self.total(v, env, "bool") for v in e.values) + ")", "bool", False
+        if isinstance(e, ast.Compare):
+            if len(e.ops) != 1:
+                fail(e, "chained comparison")
+            a, b = self.total(e.left, env, "V"), self.total(e.comparators[0], env, "V")
+            op = e.ops[0]
+            table = {ast.Lt: f"(f_lt ops {a} {b})", ast.Gt: f"(f_lt ops {b} {a})",
+                     ast.Eq: f"(f_eq ops {a} {b})", ast.NotEq: f"(negb (f_eq ops {a} {b}))",
+                     ast.LtE: f"(f_lt ops {a} {b} || f_eq ops {a} {b})", ast.GtE: f"(f_lt ops {b} {a} || f_eq ops {a} {b})"}
+            if type(op) not in table:
+                fail(e, f"comparison {type(op).__name__}")
+            return table[type(op)], "bool", False
+        if isinstance(e, ast.IfExp):
+            c = self.total(e.test, env, "bool")
+            a, ta, pa = self.expr(e.body, env)
+            b, tb, pb = self.expr(e.orelse, env)
+            if ta != tb:
+                fail(e, "branches of different types")
+            if pa or pb:
+                a = a if pa else f"(Some {a})"
+                b = b if pb else f"(Some {b})"
+            return f"(if {c} then {a} else {b})", ta, pa or pb
+        if isinstance(e, ast.Call) and not e.keywords:
+            fn = ast.unparse(e.func)
+            if fn in ("max", "min") and len(e.args) == 2:
+                a, b = self.total(e.args[0], env, "V"), self.total(e.args[1], env, "V")
+                if fn == "max":
+                    return f"(if f_lt ops {a} {b} then {b} else {a})", "V", False
+                return f"(if f_lt ops {b} {a} then {b} else {a})", "V", False
+            if fn in ("math.isnan", "isnan", "math.isinf", "isinf") and len(e.args) == 1:
+                a = self.total(e.args[0], env, "V")
+                return f"(f_is{fn[-3:]} ops {a})", "bool", False
+        fail(e, f"unsupported expression {ast.unparse(e)} in a stack method")
+
+
 # ----------------------------------------------------------------------------- constants
 def const_value(node) -> tuple[str, str]:
     """Return (coq term, coq type) of a constant expression."""
@@ -585,6 +795,8 @@ WL_DIR = Path(__file__).resolve().parent / "whitelist"
 #   kind "def"        : translate the function (spec: name?, cls?)
 #   kind "method"     : translate a method of a small mutable class as a pure function of its fields
 #                       (spec: cls, name, fields, state, consts?, params?, subst?) -- see methodize()
+#   kind "stack_method": `apply(self, eval_stack)` of a formula step as a stack transformer over an abstract
+#                       number domain (spec: cls, name?="apply", fields?={attr: "V"|"optV"}) -- see StackTr
 #   kind "assign"     : constant assigned to spec.name (module level, or in spec.cls / spec.func)
 #   kind "default"    : default value of parameter spec.arg of spec.func (spec.cls?)
 #   kind "call_kwarg" : keyword spec.kw of the spec.index-th call of spec.callee in spec.cls.spec.func
@@ -601,7 +813,13 @@ def run_one(name: str, whitelist: list, out_path: Path) -> dict:
             if rel not in trees:
                 trees[rel] = ast.parse(path.read_text())
             tree = trees[rel]
-            if kind in ("def", "method"):
+            if kind == "stack_method":
+                fn = find_def(tree, spec.get("name", "apply"), spec.get("cls"))
+                text = StackTr(fn, spec).translate(coqname)
+                if not any(c.startswith("(* Operations of the number domain") for c in chunks):
+                    chunks.append(FLOAT_OPS_PREAMBLE)
+                chunks.append(f"(* {rel}:{fn.lineno} {spec.get('cls')}.{fn.name} *)\n{text}\n")
+            elif kind in ("def", "method"):
                 fn = find_def(tree, spec.get("name", coqname), spec.get("cls"))
                 spec_fn = spec
                 if kind == "method":
